@@ -170,8 +170,15 @@ class VLoop(asyncio.AbstractEventLoop):
         return self._now
 
     def vt_call_at(self, when, fn):
-        """Schedule a plain callable at virtual time `when` (>= now)."""
-        return self.call_at(when, fn)
+        """Schedule a plain callable at virtual time `when` (>= now). The handle is remembered as the harness's own."""
+        h = self.call_at(when, fn)
+        self.__dict__.setdefault("harness_handles", set()).add(id(h))
+        return h
+
+    def client_timers(self):
+        """Pending timers that were not scheduled by the harness through vt_call_at()."""
+        mine = self.__dict__.get("harness_handles", set())
+        return [t for t in self.pending_timers() if id(t) not in mine]
 
     def vt_close(self):
         self._closed = True
@@ -269,13 +276,20 @@ class StockVLoop(asyncio.SelectorEventLoop):
         return self._vtime
 
     def vt_call_at(self, when, fn):
-        return self.call_at(when, fn)
+        h = self.call_at(when, fn)
+        self.__dict__.setdefault("harness_handles", set()).add(id(h))
+        return h
+
+    def client_timers(self):
+        mine = self.__dict__.get("harness_handles", set())
+        return [t for t in self.pending_timers() if id(t) not in mine]
 
     def pending_timers(self):
         return [t for t in self._scheduled if not t._cancelled]
 
     def pending_ready(self):
-        return [h for h in self._ready if not h._cancelled]
+        # (the driver steps the stock loop with run_forever()/stop(): its own stop handle is not a handle of the code under test)
+        return [h for h in self._ready if not h._cancelled and getattr(h._callback, "__name__", "") != "stop"]
 
     def idle(self):
         return not self.pending_timers() and not self.pending_ready()
